@@ -21,7 +21,8 @@ from ..world import run_flavor, guarded, exc_name, pool_counts, is_async, run_th
 
 ID = "C16"
 LEVEL = "exploration"
-RULE = ("O1: 13 connection types x 3 request shapes x {first use, reuse} x 3 flavours x timeout configurations "
+RULE = ("O1: 13 connection types x 3 request shapes (two of them against interim 1xx responses and 23-byte reads) x {first use, "
+        "reuse} x 3 flavours x timeout configurations "
         "(all distinct, single key only, explicit None, absent); every recorded op is one oracle evaluation. "
         "O2: holder/waiter histories on max_connections=1 with release time S and pool timeouts P over orderings "
         "S<P, S=P-eps, S=P+eps, S>P, P=0, several waiters, on asyncio, trio and threads under the controlled "
@@ -55,8 +56,13 @@ def run_o1(case):
     async def main():
         for cfg_name, cfg in CONFIGS.items():
             for shape in ("get", "post3", "stream-partial"):
-                sc = Sc(ctype, flavor, resp_delay=0.0, timeouts=cfg)
+                # interim 1xx responses and 23-byte reads: many reads are needed for every head and body, each of which
+                # has to carry the read timeout
+                hard = shape != "get"
+                sc = Sc(ctype, flavor, resp_delay=0.0, timeouts=cfg, interim=hard)
                 net = sc.net
+                if hard:
+                    net.segmentation = simnet.Segmentation("fixed", 23)
                 socks = sc.t.get("proxy") == "socks5"
 
                 async def scen():
